@@ -547,6 +547,18 @@ theorem code_close_race_repairs :
   refine ⟨by decide, fun w => ?_⟩
   cases w <;> decide
 
+/-- **Close does not wait on a leaked lock.**  `Close` acquires the write lock (or learns that the error goroutine keeps
+it); every error return of the calls that take it gives it back — the regenerated lock-release facts that C09's
+theorems are built on (`C09.code_all_fixed`): `Transaction.Commit` unlocks `compCommitLk` on its error returns,
+`OpenTransaction` returns the token on each of its error returns (also the one behind `waitCompaction`, taken when
+`Close` or a compaction error arrives while it waits at the level-0 pause trigger), `DB.Write` discards its internal
+transaction after a failed commit, `SetReadOnly` gives the token back when `Close` overtakes it, and `Close` selects
+on `compLockedC`.  A change that drops one of these releases turns the fact false. -/
+theorem code_error_paths_release_the_lock :
+    Gen.lkCommitUnlocksOnError = true ∧ Gen.lkOpenTxReleasesOnError = true ∧
+    Gen.lkLargeBatchDiscardsOnCommitError = true ∧ Gen.lkSetReadOnlyReleasesOnClose = true ∧
+    Gen.lkCloseSelectsCompLocked = true := by decide
+
 /-- every one of the four facts is needed: without it some window yields a panic, an internal error or a made-up
 answer (the source as found: all four) -/
 theorem close_race_repairs_needed (c : RaceCfg) :
@@ -573,6 +585,6 @@ def C18.theorems : List String :=
    "GoLevel.C18.setReadOnly_enters", "GoLevel.C18.setReadOnly_quiesces", "GoLevel.C18.code_setReadOnly_quiesces",
    "GoLevel.C18.drain_settles", "GoLevel.C18.setReadOnly_quiesces_partial", "GoLevel.C18.drain_completes",
    "GoLevel.C18.setReadOnly_quiesces_refuted_without_parking", "GoLevel.C18.table_sound",
-   "GoLevel.C18.code_methods_guarded", "GoLevel.C18.code_close_race_repairs",
+   "GoLevel.C18.code_methods_guarded", "GoLevel.C18.code_error_paths_release_the_lock", "GoLevel.C18.code_close_race_repairs",
    "GoLevel.C18.close_race_repairs_needed"]
 end GoLevel
